@@ -61,6 +61,11 @@ type Obs struct {
 	Queries  int64    `json:"queries"`
 	Stmts    int64    `json:"stmts"` // statements issued, GetVersionInfo's bootstrap statements not counted
 	Followup string   `json:"followup,omitempty"` // a healthy request sent AFTER this one that was not answered (family: what)
+	// live tail over a websocket: messages read before the client left or the server ended the session, how many of them
+	// were empty (not a JSON document), and how the reading ended: client-left | server-closed | timeout
+	WsMsgs  int    `json:"ws_msgs,omitempty"`
+	WsEmpty int    `json:"ws_empty,omitempty"`
+	WsEnd   string `json:"ws_end,omitempty"`
 }
 
 type Case struct {
@@ -232,6 +237,7 @@ var (
 	tcpSrv    *httptest.Server
 	tcpDone   sync.Map // case id -> chan string (handler finished; panic text)
 	tcpStatus sync.Map
+	wsObs     sync.Map // case id -> [3]{messages, empty messages, how the reading ended}
 )
 
 type statusWriter struct {
@@ -298,12 +304,24 @@ func serveTCP(c *Case, req *http.Request, deadline time.Duration) (outcome strin
 		if c.AbortAfter != nil {
 			n = *c.AbortAfter
 		}
+		wsEnd, wsMsgs, wsEmpty := "client-left", 0, 0
+		until := time.Now().Add(deadline)
 		for i := 0; i < n; i++ {
-			wc.SetReadDeadline(time.Now().Add(deadline))
-			if _, _, err := wc.ReadMessage(); err != nil {
+			wc.SetReadDeadline(until)
+			_, msg, err := wc.ReadMessage()
+			if err != nil {
+				wsEnd = "server-closed"
+				if ne, ok := err.(net.Error); ok && ne.Timeout() {
+					wsEnd = "timeout"
+				}
 				break
 			}
+			wsMsgs++
+			if len(msg) == 0 {
+				wsEmpty++
+			}
 		}
+		wsObs.Store(id, [3]interface{}{wsMsgs, wsEmpty, wsEnd})
 		wc.UnderlyingConn().Close() // no close frame: the client is simply gone
 		select {
 		case p := <-ch:
@@ -462,6 +480,10 @@ func runCase(c *Case, deadline time.Duration) *Obs {
 		oc, st, p := serveTCP(c, req, deadline)
 		obs.Ms = time.Since(t0).Milliseconds()
 		obs.Outcome, obs.Status, obs.Panic = oc, st, p
+		if v, ok := wsObs.LoadAndDelete(fmt.Sprint(c.ID)); ok {
+			w := v.([3]interface{})
+			obs.WsMsgs, obs.WsEmpty, obs.WsEnd = w[0].(int), w[1].(int), w[2].(string)
+		}
 		if oc == "hang" {
 			cancel()
 			return obs
